@@ -24,6 +24,19 @@ XfFew == {<<1, 0, 1>>, <<1, 0, 2>>, <<3, 1, 1>>}
 XfNone == {}
 AnyBy == {}
 ByFew == {<<"subj", "index">>, <<"grp", "cond">>, <<"index", "cond">>}
+Id3 == <<1, 2, 3>>
+Rev3 == <<3, 2, 1>>
+Id4 == <<1, 2, 3, 4>>
+Rev4 == <<4, 3, 2, 1>>
+Rot4 == <<2, 3, 4, 1>>
+NoCat == {}
+\* 3 RDMs x 4 conditions: test sets of one RDM at 3 of the 4 conditions (two draws), every RDM left out at all
+\* conditions (= the leave-one-out protocol), two RDMs tested at 3 conditions
+CvCat34 == {Case(1, "random", "subj", "index", 1, 3, TRUE, << <<Id3, Id4>>, <<Rev3, Rev4>> >>),
+            Case(1, "random", "subj", "cond", 1, 3, TRUE, << <<Rev3, Rot4>>, <<Id3, Id4>> >>),
+            Case(1, "k_fold", "subj", "index", 3, 1, FALSE, <<Id3, Id4, Id4, Id4>>),
+            Case(1, "loo_rdm", "subj", "", 0, 0, FALSE, <<>>),
+            Case(1, "random", "subj", "index", 2, 3, TRUE, << <<Id3, Rot4>>, <<Rev3, Id4>> >>)}
 Var1 == {1}
 Var13 == {1, 3}
 Var123 == {1, 2, 3}
